@@ -391,6 +391,36 @@ MUTANTS = [
 ]
 
 
+def run_code_mutants(mutants):
+    """Apply each canned mutation to a scratch worktree of /repo and require VIOLATION from the real check."""
+    import subprocess
+    ok = True
+    wt = os.path.join(lib.scratch_root(), "wt-ssz-selftest")
+    subprocess.run(["git", "-C", "/repo", "worktree", "remove", "--force", wt], capture_output=True)
+    p = lib.run(["git", "-C", "/repo", "worktree", "add", "--detach", wt, "HEAD"])
+    if p.returncode != 0:
+        raise lib.InfraError("cannot create worktree: " + p.stderr)
+    try:
+        for name, f, old, new, pid in mutants:
+            fp = os.path.join(wt, f)
+            src = open(fp).read()
+            if old not in src:
+                raise lib.InfraError("selftest mutant %s does not apply" % name)
+            open(fp, "w").write(src.replace(old, new, 1))
+            env = dict(os.environ)
+            env["VERIF_REPO"] = wt
+            q = subprocess.run([os.path.join(lib.VERIF, "check"), pid, "--tier", "quick"], env=env,
+                               capture_output=True, text=True)
+            flagged = q.returncode == 1 and "VIOLATION property=%s" % pid in q.stdout
+            lib.log("selftest: mutant %s -> exit %d %s" % (name, q.returncode, "VIOLATION" if flagged else "NOT FLAGGED"))
+            if not flagged:
+                ok = False
+            open(fp, "w").write(src)
+    finally:
+        subprocess.run(["git", "-C", "/repo", "worktree", "remove", "--force", wt], capture_output=True)
+    return ok
+
+
 def selftest():
     """Binding self-test: (1) a corrupted TLC result must make the Go check report a deviation; (2) canned code
     mutations in a scratch worktree must produce VIOLATION through the real check."""
@@ -430,28 +460,5 @@ def selftest():
         lib.log("selftest: corrupted %s -> %d deviations" % (what, n))
         if n == 0:
             ok = False
-    # canned code mutations
-    wt = os.path.join(lib.scratch_root(), "wt-ssz-selftest")
-    subprocess.run(["git", "-C", "/repo", "worktree", "remove", "--force", wt], capture_output=True)
-    p = lib.run(["git", "-C", "/repo", "worktree", "add", "--detach", wt, "HEAD"])
-    if p.returncode != 0:
-        raise lib.InfraError("cannot create worktree: " + p.stderr)
-    try:
-        for name, f, old, new, pid in MUTANTS:
-            fp = os.path.join(wt, f)
-            src = open(fp).read()
-            if old not in src:
-                raise lib.InfraError("selftest mutant %s does not apply" % name)
-            open(fp, "w").write(src.replace(old, new, 1))
-            env = dict(os.environ)
-            env["VERIF_REPO"] = wt
-            q = subprocess.run([os.path.join(lib.VERIF, "check"), pid, "--tier", "quick"], env=env,
-                               capture_output=True, text=True)
-            flagged = q.returncode == 1 and "VIOLATION property=%s" % pid in q.stdout
-            lib.log("selftest: mutant %s -> exit %d %s" % (name, q.returncode, "VIOLATION" if flagged else "NOT FLAGGED"))
-            if not flagged:
-                ok = False
-            open(fp, "w").write(src)
-    finally:
-        subprocess.run(["git", "-C", "/repo", "worktree", "remove", "--force", wt], capture_output=True)
+    ok &= run_code_mutants(MUTANTS)
     return ok
